@@ -46,7 +46,8 @@ PROPS = {
     'C14': {'quick': ['A', 'B'], 'thorough': ALLCFG, 'level': 'other', 'e2': True, 'roots': 'anchors'},
     'C15': {'quick': ['A', 'B'], 'thorough': ALLCFG, 'level': 'other', 'e2': True, 'roots': 'anchors'},
     'C16': {'quick': ['A', 'B'], 'thorough': ALLCFG, 'level': 'other', 'e2': True, 'roots': 'anchors'},
-    'C20': {'quick': ['D'], 'thorough': ['D'], 'level': 'other', 'e2': True, 'roots': 'anchors'},
+    # (both profiles of the serde build: an insertion written inside debug_assert! vanishes in release)
+    'C20': {'quick': ['D', 'F'], 'thorough': ['D', 'F'], 'level': 'other', 'e2': True, 'roots': 'anchors'},
 }
 BEHAVIOURAL = {p for p, s in PROPS.items() if s.get('roots') == 'anchors'}
 
@@ -225,7 +226,7 @@ def e2_collect(pid, facts, merged):
                 ob += n_w + n_cen
                 dis += n_w - len(w) + n_cen - len(cen)
             anchors = specs.anchors(pid)
-            if cfg != 'D':
+            if cfg not in ('D', 'F'):
                 # (the serde visitors exist in the serde build only: anchored there)
                 anchors = [k for k in anchors if 'serialization' not in (k[0] or '')]
             for k in anchors:
@@ -284,7 +285,7 @@ def c06_collect(facts, merged):
     ob = 0
     extra = {}
     for cfg, f in facts.items():
-        nostd = cfg in ('A', 'B', 'D')
+        nostd = cfg in ('A', 'B', 'D', 'F')
         n, v = graph.crategraph(f, nostd)
         ob += n
         vs += v
@@ -461,7 +462,7 @@ def fired_all(tier='quick'):
     import shutil
     import concurrent.futures
     from .facts import Facts
-    cfgs = ['A', 'B', 'C', 'D']
+    cfgs = ['A', 'B', 'C', 'D', 'F']
     facts_all, merged_all = cli.gather(cfgs)
     out = {}
     wres = None
